@@ -145,7 +145,7 @@ func (r *clusterRunner) scriptF() {
 		case "fvalidate":
 			r.validateF(st.Label)
 		case "hotrule":
-			r.hotRule(st.Label)
+			r.hotRule(st.Label, st.Group == 1)
 		case "async_start":
 			r.asyncStartF(st.Async)
 		case "async_poll":
@@ -432,7 +432,10 @@ func (r *clusterRunner) upCount() int {
 
 // hotRule: a mature hot store must refuse a search that starts before the creation of its oldest
 // remaining fraction (so that the proxy goes to the long-term tier) and serve one that does not.
-func (r *clusterRunner) hotRule(label string) {
+// justRestarted: the rule is asked right after a restart, possibly before the first maintenance pass of the new
+// incarnation has published the oldest creation time: until then a mature store refuses every range, which is honest,
+// so only the lower half of the rule is demanded.
+func (r *clusterRunner) hotRule(label string, justRestarted bool) {
 	if r.c.HotMode != "hot" {
 		return
 	}
@@ -469,7 +472,7 @@ func (r *clusterRunner) hotRule(label string) {
 			r.violate("old_data_not_declared", "%s: mature hot store %s answers a search starting at %d with %v although its oldest fraction was created at %d (fractions %v)", label, st.Node.Name, oldest-1, code1, oldest, fr)
 			return
 		}
-		if code2 == pb.SearchErrorCode_INGESTOR_QUERY_WANTS_OLD_DATA {
+		if code2 == pb.SearchErrorCode_INGESTOR_QUERY_WANTS_OLD_DATA && !justRestarted {
 			r.violate("old_data_declared_wrongly", "%s: mature hot store %s refuses a search starting at the creation time %d of its oldest fraction (fractions %v)", label, st.Node.Name, oldest, fr)
 			return
 		}
@@ -640,6 +643,8 @@ func genClusterC16(g *gen, c *ClusterCase) {
 		if len(down) > 0 {
 			c.Steps = append(c.Steps, Step{Kind: "heal_all"})
 			lowClock += 20
+			// a request that overtakes the first maintenance pass of the restarted stores
+			c.Steps = append(c.Steps, Step{Kind: "hotrule", Group: 1, Label: fmt.Sprintf("round%d-restarted", round)})
 		}
 		ms := g.r.Range(0, 2) * c.Knobs.MaintenanceDelayMs
 		c.Steps = append(c.Steps, Step{Kind: "sleep", Ms: int64(ms + 1)}, Step{Kind: "hotrule", Label: fmt.Sprintf("round%d-healed", round)}, Step{Kind: "fvalidate", Label: fmt.Sprintf("round%d-healed", round)})
